@@ -1,4 +1,5 @@
 import RV.C04.ConstructLemmas
+import RV.C04.AnalysisLemmas
 /-
   C04 — "SPARQL graph patterns evaluate to the solution multiset the algebra defines".
 
@@ -24,6 +25,12 @@ import RV.C04.ConstructLemmas
       specification's instantiation of the same solutions under another injective naming of the minted nodes, all
       drawn from the supply (`FreshSupply`: pairwise distinct, not among the data's nodes); `spec_naming_canonical`,
       `freshSupply_driver`.
+    * Round g: `pushdown_ctx : Statement_pushdown_ctx` — the same equation under the weaker, context-sensitive
+      hypothesis `Alg.safeIn P ctx` for every `μ0` binding at most `ctx` (`safeIn_of_safe`: `safe → safeIn ctx`;
+      `pushdown_ctx_sharp`: the hypothesis cannot be dropped); `eval_correct_top`, `construct_correct_blank_top`
+      (hypothesis `safeIn []`).  At the end of the file: rdflib's analysis passes `analyse` / `_addVars`
+      (`analysis_correct`, `addVars_may_partial/_witness`, `addVars_must_partial/_witness`,
+      `analysis_correct_mustOK`, `lazy_irrelevant`, `lazy_exposes_K1`).
 -/
 namespace RV.C04
 open Spec Model
@@ -41,6 +48,15 @@ def Dataset.WF (D : Dataset) : Prop := (D.named.map (·.1)).Nodup
 def Statement_pushdown : Prop :=
   ∀ (n : Nat) (D : Dataset) (P : Alg), D.WF → P.safe = true → WellScoped n P →
     ∀ (g : Graph) (μ0 : Row n), (Model.evalPart D g μ0 P).Perm (push μ0 (Spec.eval D g Row.empty P))
+
+/-- Round g — the context-sensitive form.  `P.safeIn ctx` (Safe.lean) demands an exact `_vars` annotation only for
+    variables that the pushed-in bindings can bind at that node, following the evaluator's data flow (nothing at the
+    top of a query; the left side's may-bind set added on the right of a lazy join and of an OPTIONAL; nothing below a
+    sub-select and on the right of MINUS).  Push-down is exact for every `μ0` that binds at most `ctx`. -/
+def Statement_pushdown_ctx : Prop :=
+  ∀ (n : Nat) (D : Dataset) (P : Alg) (ctx : List Nat), D.WF → P.safeIn ctx = true → WellScoped n P →
+    ∀ (g : Graph) (μ0 : Row n), μ0.domIn ctx →
+      (Model.evalPart D g μ0 P).Perm (push μ0 (Spec.eval D g Row.empty P))
 
 /-- The property without the `Safe` hypothesis — what C04 literally asks of every query.  FALSE for the pinned
     code (see the `_witness` theorems). -/
@@ -70,6 +86,12 @@ def Statement_eval_correct : Prop :=
   ∀ (n : Nat) (D : Dataset) (q : Query) (mint : Nat → Term), D.WF → q.safe = true → WellScoped n q.pattern →
     q.groundTemplate → ResultEq (Model.evalQuery (n := n) mint D q) (Spec.evalQuery D q)
 
+/-- Round g: the same under the weaker hypothesis `q.safeTop` (= `q.pattern.safeIn []`: a query is evaluated with
+    nothing pushed in at its top, `initBindings = {}`). -/
+def Statement_eval_correct_top : Prop :=
+  ∀ (n : Nat) (D : Dataset) (q : Query) (mint : Nat → Term), D.WF → q.safeTop = true → WellScoped n q.pattern →
+    q.groundTemplate → ResultEq (Model.evalQuery (n := n) mint D q) (Spec.evalQuery D q)
+
 /-- What `BNode()` is assumed to do for the supply `mint` (`mint k` = the node returned by the k-th call): the nodes
     are pairwise distinct, and none of them is among `avoid` (the nodes of the data and the constants of the query). -/
 def FreshSupply (mint : Nat → Term) (avoid : List Term) : Prop :=
@@ -95,7 +117,36 @@ def Statement_construct_correct_blank : Prop :=
         t ∈ Model.fillAll mint tpl ((Model.evalPart D D.dflt (Row.empty : Row n) p).map (·.restrict pv)) 0 ↔
         t ∈ Spec.instNamed tpl ((Spec.eval D D.dflt (Row.empty : Row n) p).zip names)
 
+/-- Round g: `Statement_construct_correct_blank` under the weaker hypothesis `p.safeIn []`. -/
+def Statement_construct_correct_blank_top : Prop :=
+  ∀ (n : Nat) (D : Dataset) (tpl : List TTP) (pv : List Nat) (p : Alg) (mint : Nat → Term) (avoid : List Term),
+    D.WF → p.safeIn [] = true → WellScoped n p →
+    (∀ tp ∈ tpl, ∀ v ∈ tposVars tp.1 ++ tposVars tp.2.1 ++ tposVars tp.2.2, v ∈ pv ∨ v ∉ p.may) →
+    FreshSupply mint avoid →
+    ∃ names : List (Nat → Term),
+      names.length = (Spec.eval D D.dflt (Row.empty : Row n) p).length ∧
+      (names.flatMap (fun ν => (tplLabels tpl).map ν)).Nodup ∧
+      (∀ ν ∈ names, ∀ l, (∃ k, ν l = mint k) ∧ ν l ∉ avoid) ∧
+      ∀ t : Triple,
+        t ∈ Model.fillAll mint tpl ((Model.evalPart D D.dflt (Row.empty : Row n) p).map (·.restrict pv)) 0 ↔
+        t ∈ Spec.instNamed tpl ((Spec.eval D D.dflt (Row.empty : Row n) p).zip names)
+
 /-! ### Proved -/
+
+/-- round g: every operator, hypothesis `safeIn ctx` + "the pushed-in bindings bind at most `ctx`" -/
+theorem pushdown_ctx : Statement_pushdown_ctx := by
+  intro n D P ctx hD hs hws g μ0 h0
+  exact pushdown_induction hD P ctx hs hws g μ0 h0
+
+/-- exact annotations (`Alg.safe`) are safe in every context: `pushdown` below is the instance `ctx` = all variables -/
+theorem safeIn_of_safe (P : Alg) (ctx : List Nat) (h : P.safe = true) : P.safeIn ctx = true :=
+  Alg.safeIn_of_safe P ctx h
+
+/-- at the top of a query nothing is pushed in: the model's bag IS the algebra's bag (hypothesis `safeIn []`) -/
+theorem evalPart_top0 (n : Nat) (D : Dataset) (P : Alg) (hD : D.WF) (hs : P.safeIn [] = true)
+    (hws : WellScoped n P) (g : Graph) :
+    (Model.evalPart D g (Row.empty : Row n) P).Perm (Spec.eval D g Row.empty P) := by
+  simpa using pushdown_induction hD P [] hs hws g (Row.empty : Row n) (Row.domIn_empty _)
 
 /-- every operator of the property, EXISTS / NOT EXISTS included: the only hypothesis beyond well-formedness is `Safe` -/
 theorem pushdown : Statement_pushdown := by
@@ -114,13 +165,13 @@ theorem evalPart_top (n : Nat) (D : Dataset) (P : Alg) (hD : D.WF) (hs : P.safe 
     (Model.evalPart D g (Row.empty : Row n) P).Perm (Spec.eval D g Row.empty P) := by
   simpa using pushdown n D P hD hs hws g (Row.empty : Row n)
 
-theorem eval_correct : Statement_eval_correct := by
+theorem eval_correct_top : Statement_eval_correct_top := by
   intro n D q mint hD hs hws hg
   cases q with
   | select pv p =>
-    exact ⟨rfl, (evalPart_top n D p hD hs hws D.dflt).map _⟩
+    exact ⟨rfl, (evalPart_top0 n D p hD hs hws D.dflt).map _⟩
   | ask pv p =>
-    have h := evalPart_top n D p hD hs hws D.dflt
+    have h := evalPart_top0 n D p hD hs hws D.dflt
     simp only [Model.evalQuery, Spec.evalQuery, ResultEq]
     have : ((Model.evalPart D D.dflt (Row.empty : Row n) p).map (·.restrict pv)).isEmpty =
         (Spec.eval D D.dflt (Row.empty : Row n) p).isEmpty := by
@@ -128,7 +179,7 @@ theorem eval_correct : Statement_eval_correct := by
       exact isEmpty_of_perm h
     rw [this]
   | construct tpl pv p =>
-    have h := evalPart_top n D p hD hs hws D.dflt
+    have h := evalPart_top0 n D p hD hs hws D.dflt
     obtain ⟨hg1, hg2⟩ := hg
     simp only [Model.evalQuery, Spec.evalQuery, ResultEq]
     intro t
@@ -163,6 +214,10 @@ theorem eval_correct : Statement_eval_correct := by
         | none => rfl
         | some y => exact absurd ((hb μ hμ).2 v (by simp [hget])) h1
 
+theorem eval_correct : Statement_eval_correct := by
+  intro n D q mint hD hs hws hg
+  exact eval_correct_top n D q mint hD (Alg.safeIn_of_safe q.pattern [] hs) hws hg
+
 theorem eval_correct_partial (n : Nat) (D : Dataset) (q : Query) (mint : Nat → Term) (hD : D.WF)
     (hs : q.safe = true) (hws : WellScoped n q.pattern) (hg : q.groundTemplate) :
     ResultEq (Model.evalQuery (n := n) mint D q) (Spec.evalQuery D q) :=
@@ -188,9 +243,9 @@ theorem construct_correct (n : Nat) (D : Dataset) (tpl : List TTP) (pv : List Na
   eval_correct n D (.construct tpl pv p) mint hD hs hws hg
 
 /-- CONSTRUCT with template blank nodes: the model's graph is the specification's, up to the naming of the minted nodes -/
-theorem construct_correct_blank : Statement_construct_correct_blank := by
+theorem construct_correct_blank_top : Statement_construct_correct_blank_top := by
   intro n D tpl pv p mint avoid hD hs hws hv hfresh
-  have hperm := evalPart_top n D p hD hs hws D.dflt
+  have hperm := evalPart_top0 n D p hD hs hws D.dflt
   have hb : ∀ μ ∈ Spec.eval D D.dflt (Row.empty : Row n) p, BoundsOK μ p.must p.may :=
     fun μ hμ => spec_bounds p (Alg.inFragment_true p) hws D.dflt μ hμ
   obtain ⟨N2, hp2, hl2, hz⟩ := perm_zip (hperm.map (·.restrict pv))
@@ -212,6 +267,10 @@ theorem construct_correct_blank : Statement_construct_correct_blank := by
       cases hget : μ.get v with
       | none => rfl
       | some y => exact absurd ((hb μ hμ).2 v (by simp [hget])) h1
+
+theorem construct_correct_blank : Statement_construct_correct_blank := by
+  intro n D tpl pv p mint avoid hD hs hws hv hfresh
+  exact construct_correct_blank_top n D tpl pv p mint avoid hD (Alg.safeIn_of_safe p [] hs) hws hv hfresh
 
 /-- the specification's own graph is the instantiation under the canonical naming `Term.fresh i` of solution `i`,
     which is injective on (solution, label) as well -/
@@ -246,6 +305,8 @@ def k2Pattern : Alg :=
 def k2Data : Dataset := ⟨[(i 1, i 10, i 0)], []⟩
 
 example : k1Pattern.safe = false ∧ k2Pattern.safe = false := by decide
+/-- the witnesses are outside the context-sensitive hypothesis as well (K1: `?v2` is pushed in by the lazy join) -/
+example : k1Pattern.safeIn [] = false ∧ k2Pattern.safeIn [] = false := by decide
 
 theorem pushdown_witness_K1 :
     (Model.evalPart k1Data k1Data.dflt (Row.empty : Row 4) k1Pattern).length = 1 ∧
@@ -264,7 +325,7 @@ def k4Pattern : Alg :=
     (.bgp [tp (.var 0) (.const (i 10)) (.var 1)]) [0, 1] false
 def k4Data : Dataset := ⟨[(i 0, i 10, i 1), (i 0, i 11, i 2)], []⟩
 
-example : k4Pattern.safe = false := by decide
+example : k4Pattern.safe = false ∧ k4Pattern.safeIn [] = false := by decide
 
 theorem pushdown_witness_K4 :
     (Model.evalPart k4Data k4Data.dflt (Row.empty : Row 3) k4Pattern).length = 0 ∧
@@ -321,6 +382,26 @@ example : (Spec.eval exData3 exData3.dflt (Row.empty : Row 3) exPattern3).length
 example : (Row.empty : Row 3).set 2 (i 20) ∈ Spec.eval exData3 exData3.dflt (Row.empty : Row 3) exPattern3 := by
   decide +kernel
 
+/-- round g — `{ ?v0 <10> ?v1 OPTIONAL { ?v1 <11> ?v2 } FILTER(!bound(?v2)) }`: `?v2` is listed in the FILTER's `_vars` but
+    bound only where the OPTIONAL matches, so `Alg.safe` is false; nothing can be pushed in at the top of a query, so
+    `safeIn []` holds and `pushdown_ctx` / `eval_correct_top` cover the query.  Under a context that binds `?v2` the
+    hypothesis fails (`safeIn [2] = false`) and so does push-down: the model forgets nothing (`?v2 ∈ _vars`), sees the
+    pushed-in `?v2` as bound and drops the solution the algebra keeps — the hypothesis of `pushdown_ctx` is sharp. -/
+def exPattern5 : Alg :=
+  .filter (.not (.bound 2))
+    (.leftJoin (.bgp [tp (.var 0) (.const (i 10)) (.var 1)]) (.bgp [tp (.var 1) (.const (i 11)) (.var 2)])
+      (.const (.bool true)) (some [0, 1]) (some [1, 2])) [0, 1, 2] false
+def exData5 : Dataset := ⟨[(i 0, i 10, i 1), (i 1, i 10, i 2), (i 2, i 11, i 0)], []⟩
+
+example : exPattern5.safe = false ∧ exPattern5.safeIn [] = true ∧ exPattern5.safeIn [2] = false ∧
+    (∀ v ∈ exPattern5.allVars, v < 3) := by decide
+example : (Model.evalPart exData5 exData5.dflt (Row.empty : Row 3) exPattern5).length = 1 ∧
+    (Spec.eval exData5 exData5.dflt (Row.empty : Row 3) exPattern5).length = 1 := by decide +kernel
+theorem pushdown_ctx_sharp :
+    (Model.evalPart exData5 exData5.dflt ((Row.empty : Row 3).set 2 (i 5)) exPattern5).length = 0 ∧
+    (push ((Row.empty : Row 3).set 2 (i 5)) (Spec.eval exData5 exData5.dflt (Row.empty : Row 3) exPattern5)).length = 1 := by
+  decide +kernel
+
 /-- the supply of the compiled driver — `BNode()` number k is `Term.fresh k 0` — is fresh for every list of terms
     that holds no minted node (the driver's term reader cannot produce `Term.fresh`) -/
 theorem freshSupply_driver (avoid : List Term) (h : ∀ t ∈ avoid, ∀ s l, t ≠ Term.fresh s l) :
@@ -351,5 +432,143 @@ example : (Spec.instTemplate exTpl (Spec.eval exData exData.dflt (Row.empty : Ro
 
 /-- push-down with a non-empty context that rules solutions out -/
 example : (Model.evalPart exData exData.dflt ((Row.empty : Row 4).set 0 (i 1)) exPattern).length = 2 := by decide +kernel
+
+end RV.C04
+
+namespace RV.C04
+open Spec Model
+
+/-! ### Round g — rdflib's analysis passes (`analyse`, `_addVars` of algebra.py; model: Analysis.lean)
+
+  `P.annotate` is the tree as the two passes at the end of `translateQuery` annotate it (`lazy` flags, `_vars` sets),
+  whatever annotations `P` carried before; the harness compares it with the annotations found on rdflib's own tree on
+  every case (driver line `annot`) and runs the evaluator model on it (`amodel`). -/
+
+/-- the analysis inside the verified pipeline: `evaluate.py` run on the tree as `analyse` / `_addVars` annotate it gives
+    the algebra's solutions of the tree, joined with the pushed-in bindings — wherever the annotated tree is
+    `safeIn ctx` -/
+def Statement_analysis_correct : Prop :=
+  ∀ (n : Nat) (D : Dataset) (P : Alg) (ctx : List Nat), D.WF → P.annotate.safeIn ctx = true → WellScoped n P →
+    ∀ (g : Graph) (μ0 : Row n), μ0.domIn ctx →
+      (Model.evalPart D g μ0 P.annotate).Perm (push μ0 (Spec.eval D g Row.empty P))
+
+/-- what `_addVars` says it computes ("find which variables may be bound by this part of the query"): no solution of
+    the pattern binds a variable outside the node's `_vars`.  FALSE of the code as it is (VALUES: known finding K2). -/
+def Statement_addVars_may : Prop :=
+  ∀ (n : Nat) (D : Dataset) (P : Alg) (g : Graph) (μ : Row n), WellScoped n P →
+    μ ∈ Spec.eval D g Row.empty P → μ.domIn P.addVars
+
+/-- what `evaluate.py` uses `_vars` for (`forget(_except=_vars)`, `remember(_vars)` treat a listed variable as the
+    sub-pattern's own binding): every solution binds every listed variable.  FALSE of the code as it is (K1). -/
+def Statement_addVars_must : Prop :=
+  ∀ (n : Nat) (D : Dataset) (P : Alg) (g : Graph) (μ : Row n), WellScoped n P →
+    μ ∈ Spec.eval D g Row.empty P → ∀ v ∈ P.addVars, (μ.get v).isSome = true
+
+/-- patterns built from triples, joins, FILTER, MINUS and GRAPH only: every solution binds every variable -/
+def Alg.conjunctive : Alg → Bool
+  | .bgp _ => true
+  | .join _ a b => a.conjunctive && b.conjunctive
+  | .filter _ p _ _ => p.conjunctive
+  | .minus a _ _ _ => a.conjunctive
+  | .graph _ p => p.conjunctive
+  | _ => false
+
+theorem analysis_correct : Statement_analysis_correct := by
+  intro n D P ctx hD hs hws g μ0 h0
+  have := pushdown_induction hD P.annotate ctx hs (by rw [Alg.allVars_annotate]; exact hws) g μ0 h0
+  rwa [specEval_annotate] at this
+
+/-- `_addVars` is a sound may-bind analysis on VALUES-free patterns -/
+theorem addVars_may_partial (n : Nat) (D : Dataset) (P : Alg) (g : Graph) (μ : Row n) (hv : P.valuesFree = true)
+    (hws : WellScoped n P) (hμ : μ ∈ Spec.eval D g Row.empty P) : μ.domIn P.addVars :=
+  fun v hb => Alg.may_subset_addVars P hv v ((spec_bounds P (Alg.inFragment_true P) hws g μ hμ).2 v hb)
+
+/-- K2 as a fact about the analysis: `VALUES ?v0 { <1> }` binds `?v0`, its `_vars` is empty -/
+theorem addVars_may_witness : ¬ Statement_addVars_may := by
+  intro h
+  have := h 1 ⟨[], []⟩ (.values [0] [[some (.iri 1)]]) [] ((Row.empty : Row 1).set 0 (.iri 1))
+    (by unfold WellScoped; decide) (by decide) 0 (by decide)
+  simp [Alg.addVars] at this
+
+/-- on conjunctive patterns `_vars` IS the must-bind set (and the may-bind set) -/
+theorem addVars_eq_must_of_conjunctive : ∀ P : Alg, P.conjunctive = true → P.addVars = P.must ∧ P.may = P.must
+  | .bgp _, _ => ⟨rfl, rfl⟩
+  | .join _ a b, h => by
+    simp only [Alg.conjunctive, Bool.and_eq_true] at h
+    simp [Alg.addVars, Alg.must, Alg.may, addVars_eq_must_of_conjunctive a h.1, addVars_eq_must_of_conjunctive b h.2]
+  | .filter _ p _ _, h => by
+    simp only [Alg.conjunctive] at h
+    simp [Alg.addVars, Alg.must, Alg.may, addVars_eq_must_of_conjunctive p h]
+  | .minus a _ _ _, h => by
+    simp only [Alg.conjunctive] at h
+    simp [Alg.addVars, Alg.must, Alg.may, addVars_eq_must_of_conjunctive a h]
+  | .graph _ p, h => by
+    simp only [Alg.conjunctive] at h
+    simp [Alg.addVars, Alg.must, Alg.may, addVars_eq_must_of_conjunctive p h]
+  | .union _ _, h | .leftJoin _ _ _ _ _, h | .extend _ _ _ _, h | .values _ _, h | .project _ _, h => by
+    simp [Alg.conjunctive] at h
+
+theorem addVars_must_partial (n : Nat) (D : Dataset) (P : Alg) (g : Graph) (μ : Row n) (hc : P.conjunctive = true)
+    (hws : WellScoped n P) (hμ : μ ∈ Spec.eval D g Row.empty P) : ∀ v ∈ P.addVars, (μ.get v).isSome = true := by
+  intro v hv
+  rw [(addVars_eq_must_of_conjunctive P hc).1] at hv
+  exact (spec_bounds P (Alg.inFragment_true P) hws g μ hμ).1 v hv
+
+/-- K1 as a fact about the analysis: `{ ?v0 <10> ?v1 } UNION { }` lists `?v0`, the solution of the empty branch does
+    not bind it -/
+theorem addVars_must_witness : ¬ Statement_addVars_must := by
+  intro h
+  have := h 2 ⟨[], []⟩ (.union (.bgp [⟨.var 0, .const (.iri 10), .var 1⟩]) (.bgp [])) [] (Row.empty : Row 2)
+    (by unfold WellScoped; decide) (by decide) 0 (by decide)
+  exact absurd this (by decide)
+
+/-- for VALUES-free queries the analysis can only be wrong in the K1 way: if at every FILTER / BIND / MINUS / OPTIONAL
+    node the relevant variables that the context may bind and `_addVars` lists are bound by every solution of the
+    sub-pattern (`Alg.mustOK`, decidable), evaluation of the tree as rdflib annotates it is exact -/
+theorem analysis_correct_mustOK (n : Nat) (D : Dataset) (P : Alg) (ctx : List Nat) (hD : D.WF)
+    (hv : P.valuesFree = true) (hm : P.mustOK ctx = true) (hws : WellScoped n P) (g : Graph) (μ0 : Row n)
+    (h0 : μ0.domIn ctx) :
+    (Model.evalPart D g μ0 P.annotate).Perm (push μ0 (Spec.eval D g Row.empty P)) :=
+  analysis_correct n D P ctx hD (Alg.safeIn_annotate_of_mustOK P ctx hv hm) hws g μ0 h0
+
+/-- non-vacuity: `exPattern5` carries (as sets) the annotations the analysis computes for it; it is VALUES-free and
+    `mustOK []` -/
+example : exPattern5.annotate.annots = exPattern5.annots ∧ exPattern5.valuesFree = true ∧
+    exPattern5.mustOK [] = true ∧ exPattern5.annots = ["F0,1,2", "L0,1|1,2"] := by decide
+/-- the lazy flag: `{ ?v0 <10> ?v1 . { ?v1 <11> ?v2 } UNION { VALUES ?v2 {7} } }` joins lazily, a join of joins does not -/
+example : (Alg.join false (.bgp []) (.union (.bgp []) (.values [2] [[some (.int 7)]]))).annotate =
+    .join true (.bgp []) (.union (.bgp []) (.values [2] [[some (.int 7)]])) := rfl
+example : (Alg.join true (.join true (.bgp []) (.bgp [])) (.bgp [])).annotate =
+    .join false (.join true (.bgp []) (.bgp [])) (.bgp []) := rfl
+
+end RV.C04
+
+namespace RV.C04
+open Spec Model
+
+/-- Round g — `analyse` decides which joins are evaluated lazily (right side under each left solution) and which by
+    `_join` of two independent evaluations.  The choice is invisible in the answer wherever `safeIn` holds: the tree
+    with NO lazy join (`Alg.strict`) is `safeIn` the same context (`Alg.safeIn_strict`: a lazy join only adds the left
+    side's variables to the right side's context) and gives the same bag. -/
+def Statement_lazy_irrelevant : Prop :=
+  ∀ (n : Nat) (D : Dataset) (P : Alg) (ctx : List Nat), D.WF → P.safeIn ctx = true → WellScoped n P →
+    ∀ (g : Graph) (μ0 : Row n), μ0.domIn ctx →
+      (Model.evalPart D g μ0 P.strict).Perm (Model.evalPart D g μ0 P)
+
+theorem lazy_irrelevant : Statement_lazy_irrelevant := by
+  intro n D P ctx hD hs hws g μ0 h0
+  have h1 := pushdown_induction hD P ctx hs hws g μ0 h0
+  have h2 := pushdown_induction hD P.strict ctx (Alg.safeIn_strict P ctx hs)
+    (by rw [Alg.allVars_strict]; exact hws) g μ0 h0
+  rw [specEval_strict] at h2
+  exact h2.trans h1.symm
+
+/-- the converse fails, and this is how K1 shows at its witness: with the join NOT lazy the K1 pattern is `safeIn []`
+    and evaluates to the algebra's (empty) answer; the lazy join that `analyse` chooses pushes `?v2` into the nested
+    group, whose FILTER then takes it for the group's own binding -/
+theorem lazy_exposes_K1 :
+    k1Pattern.strict.safeIn [] = true ∧ k1Pattern.safeIn [] = false ∧
+    (Model.evalPart k1Data k1Data.dflt (Row.empty : Row 4) k1Pattern.strict).length = 0 ∧
+    (Model.evalPart k1Data k1Data.dflt (Row.empty : Row 4) k1Pattern).length = 1 := by decide
 
 end RV.C04
